@@ -25,6 +25,10 @@ type simSub struct {
 	sends       int
 	flushes     int
 	Failed      error
+	// Sticky: once a call failed every later call fails too (a broken connection stays broken).
+	Sticky bool
+	// FlushOnly: with Sticky, only Flush keeps failing (writes are buffered, the flush hits the broken connection).
+	FlushOnly bool
 	// OnCall runs inside every call, before it returns (scheduling point,
 	// self-cancellation, logging).
 	OnCall func(s *simSub, flush bool, m *sse.Message, err error)
@@ -36,6 +40,8 @@ func (s *simSub) Send(m *sse.Message) error {
 	if s.FailSendAt > 0 && s.sends == s.FailSendAt {
 		err = newInjected(fmt.Sprintf("sub%d send#%d", s.ID, s.sends))
 		s.Failed = err
+	} else if s.Sticky && s.Failed != nil && !s.FlushOnly {
+		err = s.Failed
 	}
 	s.Calls = append(s.Calls, subCall{Msg: m, Err: err})
 	if s.OnCall != nil {
@@ -50,6 +56,8 @@ func (s *simSub) Flush() error {
 	if s.FailFlushAt > 0 && s.flushes == s.FailFlushAt {
 		err = newInjected(fmt.Sprintf("sub%d flush#%d", s.ID, s.flushes))
 		s.Failed = err
+	} else if s.Sticky && s.Failed != nil {
+		err = s.Failed
 	}
 	s.Calls = append(s.Calls, subCall{Flush: true, Err: err})
 	if s.OnCall != nil {
